@@ -3,6 +3,7 @@
   theorem (UPDATE part).
 -/
 import Rbgp.Enc.Proofs.Dom
+import Rbgp.Enc.Proofs.NegAgree
 namespace Rbgp.Enc
 open Rbgp.Enc.Spec
 
@@ -80,15 +81,16 @@ theorem master_unreach (p : Profile) (i : Input) (h : domUnreach i = true) :
   | rr f => simp [hm] at h
   | unreach f es =>
       simp only [hm, Bool.and_eq_true, Bool.not_eq_true'] at h
-      obtain ⟨⟨⟨⟨⟨hb, henc⟩, hneg⟩, hne⟩, hip⟩, hfit⟩ := h
+      obtain ⟨⟨⟨⟨hb, henc⟩, hne⟩, hip⟩, hfit⟩ := h
       have hne' : es ≠ [] := by intro hc; rw [hc] at hne; cases hne
       obtain ⟨v6, hv6⟩ := Option.isSome_iff_exists.mp hip
-      simp only [negAgree, Bool.and_eq_true, beq_iff_eq] at hneg
-      obtain ⟨⟨hrx, hap⟩, hext⟩ := hneg
       -- from buildable
       have hb' := hb
       simp only [buildable, hm, Bool.and_eq_true] at hb'
-      obtain ⟨_, ⟨⟨hfok, _⟩, hents⟩⟩ := hb'
+      obtain ⟨⟨⟨⟨hsl, hsr⟩, _⟩, _⟩, ⟨⟨hfok, hfneg⟩, hents⟩⟩ := hb'
+      have hneg := negAgree_of i f hsl hsr hfneg
+      simp only [negAgree, Bool.and_eq_true, beq_iff_eq] at hneg
+      obtain ⟨⟨hrx, hap⟩, hext⟩ := hneg
       simp only [famOk, Bool.and_eq_true, decide_eq_true_eq] at hfok
       have hes : ∀ e ∈ es, IpEntryOk v6 e := fun e he =>
         (entryOk_ip i f v6 e hv6 (List.all_eq_true.mp hents e he)).1
@@ -162,15 +164,16 @@ theorem master_reach (p : Profile) (i : Input) (h : domReach i = true) :
     | none => simp [hm] at h
     | some nh =>
       simp only [hm, Bool.and_eq_true, Bool.not_eq_true', Bool.or_eq_true] at h
-      obtain ⟨⟨⟨⟨⟨⟨⟨hb, henc⟩, has4⟩, hneg⟩, hne⟩, hip⟩, hfit⟩, hnhc⟩ := h
+      obtain ⟨⟨⟨⟨⟨⟨hb, henc⟩, has4⟩, hne⟩, hip⟩, hfit⟩, hnhc⟩ := h
       have hne' : es ≠ [] := by intro hc; rw [hc] at hne; cases hne
       obtain ⟨v6, hv6⟩ := Option.isSome_iff_exists.mp hip
-      simp only [negAgree, Bool.and_eq_true, beq_iff_eq] at hneg
-      obtain ⟨⟨hrx, hap⟩, hext⟩ := hneg
       -- from buildable
       have hb' := hb
       simp only [buildable, hm, Bool.and_eq_true, Bool.or_eq_true] at hb'
-      obtain ⟨_, ⟨⟨⟨⟨⟨⟨⟨hfok, _⟩, hnhb⟩, hattrs⟩, hnd⟩, hres⟩, h12⟩, hents⟩⟩ := hb'
+      obtain ⟨⟨⟨⟨hsl, hsr⟩, _⟩, _⟩, ⟨⟨⟨⟨⟨⟨⟨hfok, hfneg⟩, hnhb⟩, hattrs⟩, hnd⟩, hres⟩, h12⟩, hents⟩⟩ := hb'
+      have hneg := negAgree_of i f hsl hsr hfneg
+      simp only [negAgree, Bool.and_eq_true, beq_iff_eq] at hneg
+      obtain ⟨⟨hrx, hap⟩, hext⟩ := hneg
       simp only [famOk, Bool.and_eq_true, decide_eq_true_eq] at hfok
       have h12' : hasCode 1 attrs = true ∧ hasCode 2 attrs = true := by
         rcases h12 with h | h
